@@ -156,6 +156,8 @@ struct Resp {
   int64_t delivered_at = -1;
   std::vector<int64_t> read_times;   // instants at which the library read this response from a socket
   std::vector<uint32_t> read_seqs;   // call-log sequence numbers of those reads
+  std::vector<int> read_api;         // top-level library call (api_seq) in which each read happened
+  int forge_variant = -1;
   bool tainted = false;              // corrupted in flight by a network fault: content no longer attributable
   int acceptable = -1;               // evaluated at arrival: 1 = satisfies every acceptance condition, 0 = does not, -1 = not evaluated
   std::string unacceptable_why;
@@ -248,6 +250,7 @@ struct World {
   // hooks for oracles (set by the run)
   std::function<void(Tx &)> on_tx;
   std::function<void(Resp &)> on_resp_built;
+  std::function<void(Resp &, VFd &)> on_read;      // the library read this (UDP) response from a socket: acceptability is judged at this instant
   std::function<void(Resp &, VFd &)> on_arrival;   // a response reached a client socket (acceptability is judged here)
   std::function<int(const Tx &)> beh_override;   // return -1 for default
   // stats
@@ -282,6 +285,8 @@ struct World {
   Resp &new_resp();
   uint32_t new_marker(int resp_id);
   void inotify_event(const std::string &name);
+  // attacker: build a would-be-valid answer to transmission T, spoil it according to 'variant', deliver it to socket fd
+  int forge_response(const Tx &T, int variant, int fd, int64_t at, uint64_t salt);
   void set_file(const std::string &path, const std::string &content);
   void remove_file(const std::string &path);
 };
